@@ -14,3 +14,22 @@ def run(ctx):
     core.run_kani_set(ctx, ['c03_', 'c06_wilson_quantile_per_call'], bound='data 4-5 elements of u8; n <= 12 symbolic + grid', harness_timeout=900)
     if ctx.tier == 'thorough':
         core.run_kani_set(ctx, ['t03_'], bound='n <= 64 symbolic + larger grid', harness_timeout=3000)
+    # engine M: the Wilson bounds the ranks are computed from obtain their critical value from the oracle in THIS call
+    from mirsmt import engine as E, mir
+    from props.common_m import proportion_paths, oracle_guard
+    m = E.MEngine(ctx)
+    if m.ok:
+        try:
+            n_ok = 0
+            for p in proportion_paths(m, 'ci_wilson'):
+                if p['rk'] == 'stuck':
+                    m.stuck('C03:wilson:path', p['value'][1])
+                elif p['rk'] == 'return' and E.is_ok(p['value']):
+                    variant, bounds = E.interval_parts(p['value'])
+                    if oracle_guard(ctx, m, 'C03:wilson', p['pc'], bounds):
+                        n_ok += 1
+            if n_ok:
+                ctx.record('C03:wilson:critical-value-from-the-oracle', 'M', 'held', bound='structural, all Ok paths of ci_wilson', sample={'obligation': 'every Ok path of ci_wilson applies Zq in this call', 'paths': n_ok})
+        except mir.Stuck as e:
+            m.stuck('C03:M', 'unsupported construct: %s' % e)
+        m.finish()
